@@ -443,8 +443,10 @@ class OscNrtInterface(OscInterface):
         if time is None or time < 0.0:
             time = 0.0  # IMMEDIATELY is not needed in nrt.
         # In NRT bundle's time generated outside a routine is
-        # always absolute time (from zero as reference time).
-        if _libsc3.main.current_tt is not _libsc3.main.main_tt:
+        # always absolute time (from zero as reference time),
+        # except from functions awakened by a clock, as in rt.
+        if _libsc3.main.current_tt is not _libsc3.main.main_tt\
+        or _libsc3.main._in_awake_call:
             time += send_time
         return int(time * clk.SystemClock._SECONDS_TO_OSC)
 
@@ -509,7 +511,8 @@ class OscScore():
         # Changes in this method must be synced with it, or refactored.
         if time is None or time < 0.0:
             time = 0.0
-        if _libsc3.main.current_tt is not _libsc3.main.main_tt:
+        if _libsc3.main.current_tt is not _libsc3.main.main_tt\
+        or _libsc3.main._in_awake_call:
             time += send_time
         return time
 
